@@ -302,6 +302,12 @@ func (fr *Frame) checkExit(st *State, fc *FuncContract, entryLocks map[string]st
 		if name == "" {
 			name = fmt.Sprintf("%d", i+1)
 		}
+		if fc.Options["trustposts"] != "" {
+			// `option trustposts`: the post-conditions stay assumptions (listed); the body is still executed for its
+			// call-site clauses, frame and run-time checks
+			e.assumed["post-conditions of "+shortKey(fi.Key)+" (option trustposts: "+fc.Options["trustposts"]+")"] = true
+			continue
+		}
 		e.oblige(fr, st, "post#"+name, "", nret, g, nil, c, "")
 	}
 	// frame
